@@ -78,6 +78,10 @@ func (s *snmpService) Handle(_ context.Context, conn net.Conn) error {
 	if hdr[1]&0x80 != 0 {
 		// long form: the low bits give the number of length bytes that follow
 		k := int(hdr[1] & 0x7f)
+		if k == 0 || k > 2 {
+			// indefinite, or longer than any datagram
+			return fmt.Errorf("snmp: unsupported message length (%d length bytes)", k)
+		}
 		lenBytes, err := b.Peek(2 + k)
 		if err != nil {
 			return err
